@@ -654,6 +654,11 @@ def _dict_snapshot(d):
 def render_system(desc, rd):
     """RDSystem for a description under rendering `rd`."""
     from strengths import RDSystem, UnitsSystem, UnitArray
+    if rd.same is None and "uv" in rd.forms and rd.r.random() < 0.1:
+        # another route to the same model: the dictionary form (key aliases, units entries per level) through the reader
+        from strengths import rdsystem_from_dict
+        rd.notes["built_through_the_dictionary_reader"] = True
+        return rdsystem_from_dict(system_dict(desc, rd))
     sysu = rd.level("system", None)
     net = render_network(desc, rd, sysu)
     space = render_space(desc, rd, sysu)
@@ -846,7 +851,7 @@ def system_dict(desc, rd, parent_sys=None):
         d[r.choice(["space", "rdspace"])] = gd
     if desc["state"] is not None:
         own = rd.sys_draw(r) if rd.same is None else rd.same
-        if r.random() < 0.5:
+        if r.random() < 0.5 and not rd.molecule_state:
             d["state"] = {"value": [q_bare(x, own, Q_DIM) for x in desc["state"]], "units": own[2]}
         else:
             d["state"] = [q_bare(x, sysu, Q_DIM) for x in desc["state"]]
